@@ -64,7 +64,9 @@ func (s *replaySubjectImpl[T]) Subscribe(destination Observer[T]) Subscription {
 func (s *replaySubjectImpl[T]) SubscribeWithContext(subscriberCtx context.Context, destination Observer[T]) Subscription {
 	subscription := NewSubscriber(destination)
 
+	verifPoint("subject_replay:SubscribeWithContext:lock#0", s)
 	s.mu.Lock()
+	defer verifPoint("subject_replay:SubscribeWithContext:ret#0", s)
 	defer s.mu.Unlock()
 
 	for _, v := range s.values {
@@ -106,6 +108,7 @@ func (s *replaySubjectImpl[T]) Next(value T) {
 
 // Implements Observer.
 func (s *replaySubjectImpl[T]) NextWithContext(ctx context.Context, value T) {
+	verifPoint("subject_replay:NextWithContext:lock#0", s)
 	s.mu.Lock()
 
 	if s.status == KindNext {
@@ -121,6 +124,7 @@ func (s *replaySubjectImpl[T]) NextWithContext(ctx context.Context, value T) {
 	}
 
 	s.mu.Unlock()
+	verifPoint("subject_replay:NextWithContext:unlocked#0", s)
 }
 
 // Implements Observer.
@@ -130,6 +134,7 @@ func (s *replaySubjectImpl[T]) Error(err error) {
 
 // Implements Observer.
 func (s *replaySubjectImpl[T]) ErrorWithContext(ctx context.Context, err error) {
+	verifPoint("subject_replay:ErrorWithContext:lock#0", s)
 	s.mu.Lock()
 
 	if s.status == KindNext {
@@ -141,6 +146,7 @@ func (s *replaySubjectImpl[T]) ErrorWithContext(ctx context.Context, err error) 
 	}
 
 	s.mu.Unlock()
+	verifPoint("subject_replay:ErrorWithContext:unlocked#0", s)
 	s.unsubscribeAll()
 }
 
@@ -151,6 +157,7 @@ func (s *replaySubjectImpl[T]) Complete() {
 
 // Implements Observer.
 func (s *replaySubjectImpl[T]) CompleteWithContext(ctx context.Context) {
+	verifPoint("subject_replay:CompleteWithContext:lock#0", s)
 	s.mu.Lock()
 
 	if s.status == KindNext {
@@ -161,6 +168,7 @@ func (s *replaySubjectImpl[T]) CompleteWithContext(ctx context.Context) {
 	}
 
 	s.mu.Unlock()
+	verifPoint("subject_replay:CompleteWithContext:unlocked#0", s)
 	s.unsubscribeAll()
 }
 
@@ -188,7 +196,9 @@ func (s *replaySubjectImpl[T]) CountObservers() int {
 
 // Implements Observer.
 func (s *replaySubjectImpl[T]) IsClosed() bool {
+	verifPoint("subject_replay:IsClosed:lock#0", s)
 	s.mu.Lock()
+	defer verifPoint("subject_replay:IsClosed:ret#0", s)
 	defer s.mu.Unlock()
 
 	return s.status != KindNext
@@ -196,7 +206,9 @@ func (s *replaySubjectImpl[T]) IsClosed() bool {
 
 // Implements Observer.
 func (s *replaySubjectImpl[T]) HasThrown() bool {
+	verifPoint("subject_replay:HasThrown:lock#0", s)
 	s.mu.Lock()
+	defer verifPoint("subject_replay:HasThrown:ret#0", s)
 	defer s.mu.Unlock()
 
 	return s.status == KindError
@@ -204,7 +216,9 @@ func (s *replaySubjectImpl[T]) HasThrown() bool {
 
 // Implements Observer.
 func (s *replaySubjectImpl[T]) IsCompleted() bool {
+	verifPoint("subject_replay:IsCompleted:lock#0", s)
 	s.mu.Lock()
+	defer verifPoint("subject_replay:IsCompleted:ret#0", s)
 	defer s.mu.Unlock()
 
 	return s.status == KindComplete
